@@ -1686,9 +1686,10 @@ class MPO(MPSGeometry):
             S0 = np.kron(weight, psi.get_SL(0))  # order dictated by '(wL,vL)'
         else:
             S0 = np.ones(psi.get_B(0, None).get_leg('vL').ind_len)
-        psi.set_SL(0, S0)
         for i in range(psi.L):
             psi.set_SR(i, np.ones(psi.get_B(i, None).get_leg('vR').ind_len))
+        # set S[0] last: for infinite bc, the bond right of site L-1 is the bond 0
+        psi.set_SL(0, S0)
 
     def apply_zipup(self, psi, options):
         """Applies an MPO to an MPS (in place) with the zip-up method.
